@@ -72,5 +72,6 @@ struct Globals {
   bool verbose = false;
 };
 Globals& globals();
+extern volatile int g_last_op_kind;  // for the terminate handler
 
 }  // namespace sim
